@@ -1,5 +1,5 @@
 """C18 — stream and file hashing fail closed under I/O faults (error-flow discipline on MIR)."""
-from ..rules import errflow, generator as gen, summary, beliefs
+from ..rules import errflow, generator as gen, summary, beliefs, data
 
 EXPL = ("Decides, on every CFG path of hash_stream_common / hash_stream / hash_file: every Result-returning call (read, finalize, "
         "File::open, metadata, set_fixed_input_size, hash_stream_common) is consumed by `?` whose Break arm returns exactly that "
@@ -23,6 +23,7 @@ def run(ctx):
         ctx.guard("C18", "wrap", lambda: errflow.io_error_wrap(ctx, prog))
         ctx.guard("C18", "finalize-mismatch", lambda: gen.guards_finalize(ctx, prog, need=("mismatch",)))
         ctx.guard("C18", "finalize-delegate", lambda: gen.finalizers_delegate(ctx, prog))
+        ctx.guard("C18", "const values", lambda: data.const_census(ctx, prog, data.CONST_SCOPES["C18"], floor=1))
         ctx.guard("C18", "summaries", lambda: summary.check(ctx, prog, 'generate_easy_std::|GeneratorError', floor=2))
         ctx.guard("C18", "path summaries", lambda: summary.check_paths(ctx, prog, 'generate_easy_std::|GeneratorError', floor=1))
         if c in ("dbg", "unsafe_dbg", "strict_dbg"):
